@@ -164,6 +164,14 @@ type vWire struct {
 	closed      int
 	stamp       bool  // read the model clock at every Write
 	stamps      []int // those readings (ns)
+	hold        chan struct{} // if non-nil: when the chunks are exhausted Read blocks until Close
+}
+
+// vNewLiveWire: a wire whose peer stays silent (Read blocks) until it is closed.
+func vNewLiveWire(chunks ...string) *vWire {
+	w := vNewWire(chunks...)
+	w.hold = make(chan struct{})
+	return w
 }
 
 func vNewWire(chunks ...string) *vWire { return &vWire{chunks: chunks, failWriteAt: -1} }
@@ -175,6 +183,9 @@ func (w *vWire) Read(p []byte) (int, error) {
 		w.off = 0
 	}
 	if w.pos >= len(w.chunks) {
+		if w.hold != nil {
+			<-w.hold
+		}
 		if w.readErr != nil {
 			return 0, w.readErr
 		}
@@ -198,7 +209,13 @@ func (w *vWire) Write(p []byte) (int, error) {
 	return len(p), nil
 }
 
-func (w *vWire) Close() error                       { w.closed++; return nil }
+func (w *vWire) Close() error {
+	w.closed++
+	if w.hold != nil && w.closed == 1 {
+		close(w.hold)
+	}
+	return nil
+}
 func (w *vWire) LocalAddr() net.Addr                { return nil }
 func (w *vWire) RemoteAddr() net.Addr               { return nil }
 func (w *vWire) SetDeadline(t time.Time) error      { return nil }
